@@ -253,7 +253,7 @@ def input_packets_of_record(tconn, r):
     return len(rng), tss
 
 
-def random_cli(R, conns, allow=("p", "m", "c", "a", "g")):
+def random_cli(R, conns, allow=("p", "m", "c", "a", "g", "d")):
     """random option combination that keeps every TLS/QUIC connection selected"""
     cli = {}
     ports = sorted(set(c["s"]["port"] for c in conns if c["s"]["port"] not in (443, 44330)))
@@ -269,4 +269,8 @@ def random_cli(R, conns, allow=("p", "m", "c", "a", "g")):
     for o, pct in (("c", 30), ("a", 30), ("g", 20)):
         if o in allow and R.chance(pct):
             cli[o] = True
+    if "d" in allow and R.chance(20):
+        cli["d"] = R.choice(["", "INFO", "DEBUG", "WARNING", "ERROR"])
+        if R.chance(30):
+            cli["f"] = R.sample(["session.py", "decryptor.py", "main.py", "quic_session.py", "key_derivator.py"], R.range(1, 2))
     return cli
